@@ -79,6 +79,8 @@ func init() {
 			add(ShutdownParams{Case: "earlyclose", Checkpoint: "auto", Membership: "couchbase", APIInfo: true, MaxPoint: 4}, 1)
 			add(ShutdownParams{Case: "slowmitigationstart", Checkpoint: "auto", Mitigation: true, Membership: "static", MaxPoint: 8}, 1)
 			add(ShutdownParams{Case: "windowack", Checkpoint: "auto", Membership: "static", MaxPoint: 4}, 1)
+			add(ShutdownParams{Case: "reopenedclose", Checkpoint: "auto", Membership: "static", MaxPoint: 4}, 1)
+			add(ShutdownParams{Case: "reopenedclose", Checkpoint: "auto", Membership: "static", MaxPoint: 4, OldServer: true}, 1)
 			add(ShutdownParams{Case: "duringstart", Checkpoint: "auto", Mitigation: true, Health: true, Membership: "static", MaxPoint: 120}, 4)
 			add(ShutdownParams{Case: "duringstart", Checkpoint: "auto", Health: true, Membership: "dynamic", MaxPoint: 120}, 4)
 			add(ShutdownParams{Case: "slowfailsave", Checkpoint: "auto", Membership: "static", MaxPoint: 6}, 1)
@@ -352,6 +354,14 @@ func shutdownMain(p ShutdownParams) {
 		vrt.Sleep(2 * time.Second)
 		ackEv(0, 2)
 		vrt.Sleep(time.Duration(k) * time.Second)
+		doClose()
+	case "reopenedclose":
+		// a stream ends transiently and is re-opened by the library; much later an idle Close(): the re-opened
+		// stream is closed like every other
+		c.EndStream(uint16(k%2), []error{gocbcore.ErrDCPStreamStateChanged, gocbcore.ErrSocketClosed}[k/2%2])
+		vrt.Sleep(5 * time.Second)
+		vrt.Quiesce()
+		c.WaitIdle()
 		doClose()
 	case "duringstart":
 		// at every scheduling point of Start() before (and just after) readiness; the request is queued and
